@@ -28,35 +28,6 @@ Qed.
 Lemma doc_ok_arr vs : doc_ok (MArr vs) = true -> Forall (fun v => doc_ok v = true) vs.
 Proof. cbn [doc_ok]. intros H. apply Forall_forall. rewrite forallb_forall in H. exact H. Qed.
 
-Lemma keys_refl_map kvs : keys_refl (MMap kvs) = true ->
-  (forall v, In v (map snd kvs) -> keys_refl v = true) /\
-  (forall k v kk, In (k, v) kvs -> keyden k = Some kk -> key_eq kk kk = true).
-Proof.
-  cbn [keys_refl]. intros H. rewrite forallb_forall in H. split.
-  - intros v Hin. apply in_map_iff in Hin. destruct Hin as [[k x] [<- Hin]]. specialize (H _ Hin). cbn [snd].
-    apply andb_true_iff in H. apply H.
-  - intros k v kk Hin Hk. specialize (H _ Hin). cbn beta iota in H. rewrite Hk in H. apply andb_true_iff in H. apply H.
-Qed.
-
-Lemma keys_refl_arr vs : keys_refl (MArr vs) = true -> Forall (fun v => keys_refl v = true) vs.
-Proof. cbn [keys_refl]. intros H. apply Forall_forall. rewrite forallb_forall in H. exact H. Qed.
-
-(* the histories / documents on which the by-reference key of the VisitKeys callback cannot go wrong *)
-Definition guard (free : bool) (v : mpv) : Prop := free = true \/ keys_refl v = true.
-Definition aguard (free : bool) (vs : list mpv) : Prop := free = true \/ Forall (fun v => keys_refl v = true) vs.
-
-Lemma guard_child free kvs v : guard free (MMap kvs) -> In v (map snd kvs) -> guard free v.
-Proof. intros [H | H] Hin; [left; exact H | right; exact (proj1 (keys_refl_map _ H) v Hin)]. Qed.
-Lemma aguard_arr free vs : guard free (MArr vs) -> aguard free vs.
-Proof. intros [H | H]; [left; exact H | right; exact (keys_refl_arr _ H)]. Qed.
-Lemma aguard_head free v vs : aguard free (v :: vs) -> guard free v /\ aguard free vs.
-Proof. intros [H | H]; [split; left; exact H | inversion H; subst; split; right; assumption]. Qed.
-
-Lemma guard_and a b v : guard (a && b) v -> guard a v /\ guard b v.
-Proof. intros [H | H]; [apply andb_true_iff in H; destruct H; split; left; assumption | split; right; exact H]. Qed.
-Lemma aguard_and a b vs : aguard (a && b) vs -> aguard a vs /\ aguard b vs.
-Proof. intros [H | H]; [apply andb_true_iff in H; destruct H; split; left; assumption | split; right; exact H]. Qed.
-
 Section Refine.
   Variable narrow : N -> option N.
   Variable widen : N -> N.
@@ -78,33 +49,29 @@ Section Refine.
 
   Definition P_req (r : req) : Prop :=
     forall body kvs rend, bytes body -> olayout body kvs rend -> doc_ok (MMap kvs) = true ->
-    guard (each_free_req r) (MMap kvs) ->
     forall st p, cursor body kvs rend st p ->
     forall toks c, spec_req kvs r = (toks, None, c) ->
     exists st' p', run_req r st p = (toks, Go st' p', false) /\ cursor body kvs rend st' p'.
 
   Definition P_reqs (l : reqs) : Prop :=
     forall body kvs rend, bytes body -> olayout body kvs rend -> doc_ok (MMap kvs) = true ->
-    guard (each_free_reqs l) (MMap kvs) ->
     forall st p, cursor body kvs rend st p ->
     forall toks c, spec_reqs kvs l = (toks, None, c) ->
     exists st' p', run_reqs l st p = (toks, Go st' p', false) /\ cursor body kvs rend st' p'.
 
   Definition P_areq (a : areq) : Prop :=
-    forall vs rend p, bytes p -> alayout p vs rend -> all_ok vs -> aguard (each_free_areq a) vs ->
+    forall vs rend p, bytes p -> alayout p vs rend -> all_ok vs ->
     forall size idx, idx + N.of_nat (length vs) = size ->
     forall toks c vs', spec_areq vs a = ((toks, None, c), vs') ->
     exists idx' p', run_areq a (mkA size idx) p = (toks, Go (mkA size idx') p', false) /\
-      bytes p' /\ alayout p' vs' rend /\ all_ok vs' /\ idx' + N.of_nat (length vs') = size /\
-      (forall free, aguard free vs -> aguard free vs').
+      bytes p' /\ alayout p' vs' rend /\ all_ok vs' /\idx' + N.of_nat (length vs') = size.
 
   Definition P_areqs (l : areqs) : Prop :=
-    forall vs rend p, bytes p -> alayout p vs rend -> all_ok vs -> aguard (each_free_areqs l) vs ->
+    forall vs rend p, bytes p -> alayout p vs rend -> all_ok vs ->
     forall size idx, idx + N.of_nat (length vs) = size ->
     forall toks c vs', spec_areqs vs l = ((toks, None, c), vs') ->
     exists idx' p', run_areqs l (mkA size idx) p = (toks, Go (mkA size idx') p', false) /\
-      bytes p' /\ alayout p' vs' rend /\ all_ok vs' /\ idx' + N.of_nat (length vs') = size /\
-      (forall free, aguard free vs -> aguard free vs').
+      bytes p' /\ alayout p' vs' rend /\ all_ok vs' /\idx' + N.of_nat (length vs') = size.
 
   (* ---------- unfolding equations of the mutual fixpoints (stated with the folded names) ---------- *)
   Lemma spec_reqs_cons kvs r l : spec_reqs kvs (RCons r l) =
@@ -228,7 +195,7 @@ Section Refine.
 
   Lemma H_get q t : P_req (RGet q t).
   Proof.
-    intros body kvs rend Hb HL Hok HG st p Hc toks c Hs.
+    intros body kvs rend Hb HL Hok st p Hc toks c Hs.
     destruct (doc_ok_map _ Hok) as [Hsup [Hdist Hvals]].
     destruct (find_spec narrow widen o body kvs rend Hb HL Hsup Hdist q st p Hc) as [b [st1 [p1 [Ef Hres]]]].
     change (run_req (RGet q t) st p) with (do_get narrow widen o (find_value_by_key narrow widen o) q t st p). cbn [MpScopeSpec.spec_req] in Hs.
@@ -256,37 +223,35 @@ Section Refine.
 
   Lemma H_nil : P_reqs RNil.
   Proof.
-    intros body kvs rend Hb HL Hok HG st p Hc toks c Hs. cbn [MpScopeSpec.spec_reqs] in Hs. injection Hs as <- _.
+    intros body kvs rend Hb HL Hok st p Hc toks c Hs. cbn [MpScopeSpec.spec_reqs] in Hs. injection Hs as <- _.
     exists st, p. split; [reflexivity | exact Hc].
   Qed.
 
   Lemma H_cons r l : P_req r -> P_reqs l -> P_reqs (RCons r l).
   Proof.
-    intros IHr IHl body kvs rend Hb HL Hok HG st p Hc toks c Hs. rewrite spec_reqs_cons in Hs.
+    intros IHr IHl body kvs rend Hb HL Hok st p Hc toks c Hs. rewrite spec_reqs_cons in Hs.
     destruct (spec_req kvs r) as [[t1 e1] c1] eqn:E1. destruct e1 as [e1|]; [discriminate Hs|].
     destruct (spec_reqs kvs l) as [[t2 e2] c2] eqn:E2. injection Hs as <- -> _.
-    cbn [each_free_reqs] in HG. apply guard_and in HG. destruct HG as [HGr HGl].
-    destruct (IHr body kvs rend Hb HL Hok HGr st p Hc t1 c1 E1) as [st1 [p1 [R1 Hc1]]].
-    destruct (IHl body kvs rend Hb HL Hok HGl st1 p1 Hc1 t2 c2 E2) as [st2 [p2 [R2 Hc2]]].
+    destruct (IHr body kvs rend Hb HL Hok st p Hc t1 c1 E1) as [st1 [p1 [R1 Hc1]]].
+    destruct (IHl body kvs rend Hb HL Hok st1 p1 Hc1 t2 c2 E2) as [st2 [p2 [R2 Hc2]]].
     exists st2, p2. split; [|exact Hc2]. rewrite run_reqs_cons, R1, R2. reflexivity.
   Qed.
 
   (* a child object scope: opened at a value that is a map, driven by a program, destroyed *)
   Lemma child_obj_run body_reqs p1 kvs' pn t c :
     P_reqs body_reqs -> bytes p1 -> decode p1 = Some (MMap kvs', pn) -> doc_ok (MMap kvs') = true ->
-    guard (each_free_reqs body_reqs) (MMap kvs') ->
     spec_reqs kvs' body_reqs = (t, None, c) ->
     exists bodyc cst cp,
       read_map_size o p1 = ROk (N.of_nat (length kvs')) bodyc /\
       run_reqs body_reqs (mkO bodyc (N.of_nat (length kvs')) 0 None) bodyc = (t, Go cst cp, false) /\
       close_obj cst cp = CDone pn false.
   Proof.
-    intros IH Hbp Hv Hok HG Hs.
+    intros IH Hbp Hv Hok Hs.
     destruct (read_map_size_on o p1 _ pn Hbp Hv) as [bodyc [Hr [HLc Hsuf]]].
     pose proof (suffix_bytes _ _ Hsuf Hbp) as Hbc.
     assert (Hc0 : cursor bodyc kvs' pn (mkO bodyc (N.of_nat (length kvs')) 0 None) bodyc)
       by (apply (C_at bodyc kvs' pn [] kvs' bodyc); [reflexivity | constructor | exact HLc]).
-    destruct (IH bodyc kvs' pn Hbc HLc Hok HG _ _ Hc0 t c Hs) as [cst [cp [Hrun Hcc]]].
+    destruct (IH bodyc kvs' pn Hbc HLc Hok _ _ Hc0 t c Hs) as [cst [cp [Hrun Hcc]]].
     exists bodyc, cst, cp. split; [exact Hr|]. split; [exact Hrun|].
     apply (close_spec narrow widen bodyc kvs' pn). exact Hcc.
   Qed.
@@ -316,18 +281,17 @@ Section Refine.
 
   Lemma child_arr_run body_reqs p1 vs pn t c vs' :
     P_areqs body_reqs -> bytes p1 -> decode p1 = Some (MArr vs, pn) -> doc_ok (MArr vs) = true ->
-    guard (each_free_areqs body_reqs) (MArr vs) ->
     spec_areqs vs body_reqs = ((t, None, c), vs') ->
     exists bodyc ast cp,
       read_array_size o p1 = ROk (N.of_nat (length vs)) bodyc /\
       run_areqs body_reqs (mkA (N.of_nat (length vs)) 0) bodyc = (t, Go ast cp, false) /\
       close_arr ast cp = CDone pn false.
   Proof.
-    intros IH Hbp Hv Hok HG Hs.
+    intros IH Hbp Hv Hok Hs.
     destruct (read_array_size_on o p1 _ pn Hbp Hv) as [bodyc [Hr [HLc Hsuf]]].
     pose proof (suffix_bytes _ _ Hsuf Hbp) as Hbc.
-    destruct (IH vs pn bodyc Hbc HLc (doc_ok_arr _ Hok) (aguard_arr _ _ HG) (N.of_nat (length vs)) 0 (N.add_0_l _) t c vs' Hs)
-      as [idx' [p' [Hrun [_ [HL' [_ [Hi _]]]]]]].
+    destruct (IH vs pn bodyc Hbc HLc (doc_ok_arr _ Hok) (N.of_nat (length vs)) 0 (N.add_0_l _) t c vs' Hs)
+      as [idx' [p' [Hrun [_ [HL' [_ Hi]]]]]].
     exists bodyc, (mkA (N.of_nat (length vs)) idx'), p'. split; [exact Hr|]. split; [exact Hrun|].
     apply (close_arr_spec vs'); assumption.
   Qed.
@@ -391,17 +355,17 @@ Section Refine.
 
     (* OpenObjectScope(key): the value found is v *)
     Lemma obj_found q body_reqs st p st1 p1 v pn toks c :
-      P_reqs body_reqs -> guard (each_free_reqs body_reqs) v -> doc_ok v = true ->
+      P_reqs body_reqs -> doc_ok v = true ->
       fnd q st p = Go (true, st1) p1 -> at_member body kvs rend st1 p1 v pn ->
       (match v with MMap kvs' => child (spec_reqs kvs' body_reqs) true | _ => not_container o v end) = (toks, None, c) ->
       do_obj o fnd (run_reqs body_reqs) q st p = (toks, Go (on_finish_child st1) pn, false).
     Proof.
-      intros IH HGv Hokv Ef HM Hs. unfold do_obj. rewrite Ef. cbn [lift_find].
+      intros IH Hokv Ef HM Hs. unfold do_obj. rewrite Ef. cbn [lift_find].
       destruct (at_member_facts body kvs rend Hb _ _ _ _ HM) as [Hv [Hbp _]].
       pose proof (read_map_size_on o p1 v pn Hbp Hv) as Hsz.
       destruct v.
       9:{ apply child_go in Hs. destruct Hs as [t [c' [Hs ->]]].
-          destruct (child_obj_run body_reqs p1 l pn t c' IH Hbp Hv Hokv HGv Hs) as [bodyc [cst [cp [Hr [Hrun Hcl]]]]].
+          destruct (child_obj_run body_reqs p1 l pn t c' IH Hbp Hv Hokv Hs) as [bodyc [cst [cp [Hr [Hrun Hcl]]]]].
           rewrite Hr, Hrun. unfold with_child, after_child_obj, after_child. cbn [wrap_child is_go]. rewrite Hcl. reflexivity. }
       all: apply not_container_go in Hs; destruct Hs as [-> Hnt]; rewrite Hsz, Hnt; reflexivity.
     Qed.
@@ -413,7 +377,7 @@ Section Refine.
 
     (* OpenArrayScope(key) *)
     Lemma arr_found q body_reqs st p st1 p1 v pn toks c :
-      P_areqs body_reqs -> guard (each_free_areqs body_reqs) v -> doc_ok v = true ->
+      P_areqs body_reqs -> doc_ok v = true ->
       fnd q st p = Go (true, st1) p1 -> at_member body kvs rend st1 p1 v pn ->
       (match v with
        | MArr vs => match spec_areqs vs body_reqs with (r', lft) => child r' (match lft with [] => true | _ => false end) end
@@ -421,12 +385,12 @@ Section Refine.
        end) = (toks, None, c) ->
       do_arr o fnd (run_areqs body_reqs) q st p = (toks, Go (on_finish_child st1) pn, false).
     Proof.
-      intros IH HGv Hokv Ef HM Hs. unfold do_arr. rewrite Ef. cbn [lift_find].
+      intros IH Hokv Ef HM Hs. unfold do_arr. rewrite Ef. cbn [lift_find].
       destruct (at_member_facts body kvs rend Hb _ _ _ _ HM) as [Hv [Hbp _]].
       pose proof (read_array_size_on o p1 v pn Hbp Hv) as Hsz.
       destruct v.
       8:{ apply spec_arr_child_go in Hs. destruct Hs as [t [c' [vs' [Hs ->]]]].
-          destruct (child_arr_run body_reqs p1 l pn t c' vs' IH Hbp Hv Hokv HGv Hs) as [bodyc [ast [cp [Hr [Hrun Hcl]]]]].
+          destruct (child_arr_run body_reqs p1 l pn t c' vs' IH Hbp Hv Hokv Hs) as [bodyc [ast [cp [Hr [Hrun Hcl]]]]].
           rewrite Hr, Hrun. unfold with_child, after_child_arr, after_child. cbn [wrap_child is_go]. rewrite Hcl. reflexivity. }
       all: apply not_container_go in Hs; destruct Hs as [-> Hnt]; rewrite Hsz, Hnt; reflexivity.
     Qed.
@@ -464,7 +428,7 @@ Section Refine.
 
   Lemma H_obj q body_reqs : P_reqs body_reqs -> P_req (RObj q body_reqs).
   Proof.
-    intros IH body kvs rend Hb HL Hok HG st p Hc toks c Hs.
+    intros IH body kvs rend Hb HL Hok st p Hc toks c Hs.
     destruct (doc_ok_map _ Hok) as [Hsup [Hdist Hvals]].
     destruct (find_spec narrow widen o body kvs rend Hb HL Hsup Hdist q st p Hc) as [b [st1 [p1 [Ef Hres]]]].
     rewrite run_req_obj. rewrite spec_req_obj in Hs.
@@ -473,14 +437,14 @@ Section Refine.
         eexists _, _. split; [reflexivity | exact Hc']. }
     destruct Hres as [-> [pn HM]].
     destruct (at_member_facts body kvs rend Hb _ _ _ _ HM) as [_ [_ [_ [Hin _]]]].
-    rewrite (obj_found body kvs rend Hb (find_value_by_key narrow widen o) q body_reqs st p st1 p1 v pn toks c IH (guard_child _ _ _ HG Hin) (Hvals _ Hin) Ef HM);
+    rewrite (obj_found body kvs rend Hb (find_value_by_key narrow widen o) q body_reqs st p st1 p1 v pn toks c IH (Hvals _ Hin) Ef HM);
       [|destruct v; exact Hs].
     eexists _, _. split; [reflexivity|]. exact (after_member narrow widen body kvs rend _ _ _ _ HM).
   Qed.
 
   Lemma H_arr q body_reqs : P_areqs body_reqs -> P_req (RArr q body_reqs).
   Proof.
-    intros IH body kvs rend Hb HL Hok HG st p Hc toks c Hs.
+    intros IH body kvs rend Hb HL Hok st p Hc toks c Hs.
     destruct (doc_ok_map _ Hok) as [Hsup [Hdist Hvals]].
     destruct (find_spec narrow widen o body kvs rend Hb HL Hsup Hdist q st p Hc) as [b [st1 [p1 [Ef Hres]]]].
     rewrite run_req_arr. rewrite spec_req_arr in Hs.
@@ -489,7 +453,7 @@ Section Refine.
         eexists _, _. split; [reflexivity | exact Hc']. }
     destruct Hres as [-> [pn HM]].
     destruct (at_member_facts body kvs rend Hb _ _ _ _ HM) as [_ [_ [_ [Hin _]]]].
-    rewrite (arr_found body kvs rend Hb (find_value_by_key narrow widen o) q body_reqs st p st1 p1 v pn toks c IH (guard_child _ _ _ HG Hin) (Hvals _ Hin) Ef HM);
+    rewrite (arr_found body kvs rend Hb (find_value_by_key narrow widen o) q body_reqs st p st1 p1 v pn toks c IH (Hvals _ Hin) Ef HM);
       [|destruct v; exact Hs].
     eexists _, _. split; [reflexivity|]. exact (after_member narrow widen body kvs rend _ _ _ _ HM).
   Qed.
@@ -497,7 +461,7 @@ Section Refine.
   (* OpenBinaryScope(key) *)
   Lemma H_bin q n : P_req (RBin q n).
   Proof.
-    intros body kvs rend Hb HL Hok HG st p Hc toks c Hs.
+    intros body kvs rend Hb HL Hok st p Hc toks c Hs.
     destruct (doc_ok_map _ Hok) as [Hsup [Hdist Hvals]].
     destruct (find_spec narrow widen o body kvs rend Hb HL Hsup Hdist q st p Hc) as [b [st1 [p1 [Ef Hres]]]].
     change (run_req (RBin q n) st p) with (fst (do_bin_gen o (find_value_by_key narrow widen o) n q st p)). cbn [MpScopeSpec.spec_req] in Hs.
@@ -523,7 +487,7 @@ Section Refine.
 
   Lemma H_visit : P_req RVisit.
   Proof.
-    intros body kvs rend Hb HL Hok HG st p Hc toks c Hs.
+    intros body kvs rend Hb HL Hok st p Hc toks c Hs.
     destruct (doc_ok_map _ Hok) as [Hsup [Hdist Hvals]].
     cbn [MpScopeSpec.spec_req] in Hs. injection Hs as <- _.
     destruct (reset_key_go body kvs rend st p Hc) as [st1 [p1 [Hr [Hst [Hsz Hk]]]]].
@@ -538,30 +502,28 @@ Section Refine.
   Qed.
 
   (* ---------- array scope ---------- *)
-  Ltac fin_arr := repeat split; try assumption; try lia;
-    try (let fr := fresh in let HH := fresh in intros fr HH; first [exact HH | exact (proj2 (aguard_head _ _ _ HH))]).
+  Ltac fin_arr := repeat split; try assumption; try lia.
 
   Lemma A_nil : P_areqs ANil.
   Proof.
-    intros vs rend p Hb HL Hok HG size idx Hi toks c vs' Hs. cbn [MpScopeSpec.spec_areqs] in Hs. injection Hs as <- _ <-.
+    intros vs rend p Hb HL Hok size idx Hi toks c vs' Hs. cbn [MpScopeSpec.spec_areqs] in Hs. injection Hs as <- _ <-.
     exists idx, p. split; [reflexivity|]. fin_arr.
   Qed.
 
   Lemma A_cons a l : P_areq a -> P_areqs l -> P_areqs (ACons a l).
   Proof.
-    intros IHa IHl vs rend p Hb HL Hok HG size idx Hi toks c vs' Hs. rewrite spec_areqs_cons in Hs.
+    intros IHa IHl vs rend p Hb HL Hok size idx Hi toks c vs' Hs. rewrite spec_areqs_cons in Hs.
     destruct (spec_areq vs a) as [[[t1 e1] c1] vs1] eqn:E1. destruct e1 as [e1|]; [discriminate Hs|].
     destruct (spec_areqs vs1 l) as [[[t2 e2] c2] vs2] eqn:E2. injection Hs as <- -> _ <-.
-    cbn [each_free_areqs] in HG. apply aguard_and in HG. destruct HG as [HGa HGl].
-    destruct (IHa vs rend p Hb HL Hok HGa size idx Hi t1 c1 vs1 E1) as [idx1 [p1 [R1 [Hb1 [HL1 [Hok1 [Hi1 Hg1]]]]]]].
-    destruct (IHl vs1 rend p1 Hb1 HL1 Hok1 (Hg1 _ HGl) size idx1 Hi1 t2 c2 vs2 E2) as [idx2 [p2 [R2 [Hb2 [HL2 [Hok2 [Hi2 Hg2]]]]]]].
+    destruct (IHa vs rend p Hb HL Hok size idx Hi t1 c1 vs1 E1) as [idx1 [p1 [R1 [Hb1 [HL1 [Hok1 Hi1]]]]]].
+    destruct (IHl vs1 rend p1 Hb1 HL1 Hok1 size idx1 Hi1 t2 c2 vs2 E2) as [idx2 [p2 [R2 [Hb2 [HL2 [Hok2 Hi2]]]]]].
     exists idx2, p2. split; [rewrite run_areqs_cons, R1, R2; reflexivity|].
-    repeat split; try assumption. intros free Hf. exact (Hg2 _ (Hg1 _ Hf)).
+    repeat split; assumption.
   Qed.
 
   Lemma A_end : P_areq AEnd.
   Proof.
-    intros vs rend p Hb HL Hok HG size idx Hi toks c vs' Hs. cbn [MpScopeSpec.spec_areq] in Hs. injection Hs as <- _ <-.
+    intros vs rend p Hb HL Hok size idx Hi toks c vs' Hs. cbn [MpScopeSpec.spec_areq] in Hs. injection Hs as <- _ <-.
     exists idx, p. split; [|fin_arr].
     cbn [MpScopeModel.run_areq a_index a_size].
     destruct vs; cbn [length] in Hi; [replace (idx =? size) with true by (symmetry; lia) | replace (idx =? size) with false by (symmetry; lia)]; reflexivity.
@@ -569,7 +531,7 @@ Section Refine.
 
   Lemma A_get t : P_areq (AGet t).
   Proof.
-    intros vs rend p Hb HL Hok HG size idx Hi toks c vs' Hs.
+    intros vs rend p Hb HL Hok size idx Hi toks c vs' Hs.
     destruct vs as [|v vs0]; [cbn [MpScopeSpec.spec_areq] in Hs; discriminate Hs|].
     inversion HL as [|? ? p' ? ? Hv HL']; subst. inversion Hok as [|? ? Hokv Hok']; subst. cbn [length] in *.
     cbn [MpScopeSpec.spec_areq] in Hs. injection Hs as Hs <-.
@@ -582,7 +544,7 @@ Section Refine.
 
   Lemma A_obj body_reqs : P_reqs body_reqs -> P_areq (AObj body_reqs).
   Proof.
-    intros IH vs rend p Hb HL Hok HG size idx Hi toks c vs' Hs.
+    intros IH vs rend p Hb HL Hok size idx Hi toks c vs' Hs.
     destruct vs as [|v vs0]; [cbn [MpScopeSpec.spec_areq] in Hs; discriminate Hs|].
     inversion HL as [|? ? p' ? ? Hv HL']; subst. inversion Hok as [|? ? Hokv Hok']; subst. cbn [length] in *.
     rewrite spec_areq_obj in Hs.
@@ -591,7 +553,7 @@ Section Refine.
     pose proof (read_map_size_on o p v p' Hb Hv) as Hsz.
     destruct v.
     9:{ injection Hs as Hs <-. apply child_go in Hs. destruct Hs as [t [c' [Hs ->]]].
-        destruct (child_obj_run body_reqs p l p' t c' IH Hb Hv Hokv (proj1 (aguard_head _ _ _ HG)) Hs) as [bodyc [cst [cp [Hr [Hrun Hcl]]]]].
+        destruct (child_obj_run body_reqs p l p' t c' IH Hb Hv Hokv Hs) as [bodyc [cst [cp [Hr [Hrun Hcl]]]]].
         rewrite Hr, Hrun. unfold with_child, after_child_obj, after_child. cbn [wrap_child is_go]. rewrite Hcl. cbn [orb].
         exists (idx + 1), p'. split; [reflexivity | fin_arr]. }
     all: pose proof (f_equal snd Hs) as Hs2; apply (f_equal fst) in Hs; cbn [fst snd] in Hs, Hs2; subst vs';
@@ -601,7 +563,7 @@ Section Refine.
 
   Lemma A_arr body_reqs : P_areqs body_reqs -> P_areq (AArr body_reqs).
   Proof.
-    intros IH vs rend p Hb HL Hok HG size idx Hi toks c vs' Hs.
+    intros IH vs rend p Hb HL Hok size idx Hi toks c vs' Hs.
     destruct vs as [|v vs0]; [cbn [MpScopeSpec.spec_areq] in Hs; discriminate Hs|].
     inversion HL as [|? ? p' ? ? Hv HL']; subst. inversion Hok as [|? ? Hokv Hok']; subst. cbn [length] in *.
     rewrite spec_areq_arr in Hs.
@@ -611,7 +573,7 @@ Section Refine.
     destruct v.
     8:{ destruct (spec_areqs l body_reqs) as [r' lft] eqn:Er. injection Hs as Hs <-.
         apply child_go in Hs. destruct Hs as [t [c' [-> ->]]].
-        destruct (child_arr_run body_reqs p l p' t c' lft IH Hb Hv Hokv (proj1 (aguard_head _ _ _ HG)) Er) as [bodyc [ast [cp [Hr [Hrun Hcl]]]]].
+        destruct (child_arr_run body_reqs p l p' t c' lft IH Hb Hv Hokv Er) as [bodyc [ast [cp [Hr [Hrun Hcl]]]]].
         rewrite Hr, Hrun. unfold with_child, after_child_arr, after_child. cbn [wrap_child is_go]. rewrite Hcl. cbn [orb].
         exists (idx + 1), p'. split; [reflexivity | fin_arr]. }
     all: pose proof (f_equal snd Hs) as Hs2; apply (f_equal fst) in Hs; cbn [fst snd] in Hs, Hs2; subst vs';
@@ -621,7 +583,7 @@ Section Refine.
 
   Lemma A_bin n : P_areq (ABin n).
   Proof.
-    intros vs rend p Hb HL Hok HG size idx Hi toks c vs' Hs.
+    intros vs rend p Hb HL Hok size idx Hi toks c vs' Hs.
     destruct vs as [|v vs0]; [cbn [MpScopeSpec.spec_areq] in Hs; discriminate Hs|].
     inversion HL as [|? ? p' ? ? Hv HL']; subst. inversion Hok as [|? ? Hokv Hok']; subst. cbn [length] in *.
     cbn [MpScopeSpec.spec_areq] in Hs.
@@ -640,16 +602,51 @@ Section Refine.
          exists idx, p; (split; [reflexivity | repeat split; try assumption; try (constructor; assumption); try (cbn [length]; lia); try (intros fr HH; exact HH)]).
   Qed.
 
+  (* ---------- try { request } catch (OutOfRange), and a throw by the caller ---------- *)
+  Definition guarded (a : areq) : bool := match a with AGet _ | AObj _ | AArr _ | ABin _ => true | _ => false end.
+
+  Lemma spec_areq_try vs a : spec_areq vs (ATry a) =
+    match vs, a with
+    | [], (AGet _ | AObj _ | AArr _ | ABin _) => (([KCaught], None, true), vs)
+    | _, _ => spec_areq vs a
+    end.
+  Proof. reflexivity. Qed.
+
+  Lemma run_areq_try a st rest : run_areq (ATry a) st rest =
+    match run_areq a st rest with
+    | (t, Raise SERange st' (Some r'), f) => (t ++ [KCaught], Go st' r', f)
+    | other => other
+    end.
+  Proof. reflexivity. Qed.
+
+  Lemma A_throw e : P_areq (AThrow e).
+  Proof. intros vs rend p Hb HL Hok size idx Hi toks c vs' Hs. discriminate Hs. Qed.
+
+  (* an error-free guarded request: either the array is exhausted (the scope's CheckEnd throws before anything moves, the
+     caller catches it) or the request itself is error-free, and then nothing is caught *)
+  Lemma A_try a : P_areq a -> P_areq (ATry a).
+  Proof.
+    intros IH vs rend p Hb HL Hok size idx Hi toks c vs' Hs. rewrite spec_areq_try in Hs. rewrite run_areq_try.
+    assert (Hcase : (vs = [] /\ guarded a = true /\ toks = [KCaught] /\ vs' = []) \/ spec_areq vs a = ((toks, None, c), vs')).
+    { destruct vs; destruct a; try (right; exact Hs); left; injection Hs as <- _ <-; repeat split. }
+    destruct Hcase as [[-> [Hg [-> ->]]] | Hs'].
+    - cbn [length] in Hi. assert (idx = size) by lia. subst idx.
+      exists size, p. split; [|fin_arr].
+      destruct a; try discriminate Hg; cbn [MpScopeModel.run_areq a_index a_size]; rewrite N.eqb_refl; reflexivity.
+    - destruct (IH vs rend p Hb HL Hok size idx Hi toks c vs' Hs') as [idx' [p' [R H']]]. exists idx', p'. rewrite R.
+      split; [reflexivity | exact H'].
+  Qed.
+
   (* ---------- VisitKeys with a callback that loads under the key it is handed ---------- *)
   Definition P_vact (a : vact) : Prop :=
-    forall body kvs rend, bytes body -> olayout body kvs rend -> doc_ok (MMap kvs) = true -> keys_refl (MMap kvs) = true ->
+    forall body kvs rend, bytes body -> olayout body kvs rend -> doc_ok (MMap kvs) = true ->
     forall st p vm pn sk, at_member body kvs rend st p vm pn -> o_key st = Some sk ->
     forall toks c, spec_vact kvs (qkey_of_skey sk) a = (toks, None, c) ->
     exists st' p', run_vact a (qkey_of_skey sk) st p = (toks, Go st' p', false) /\
       ((st' = st /\ p' = p) \/ (st' = on_finish_child st /\ p' = pn)).
 
   Definition P_vacts (acts : vacts) : Prop :=
-    forall body kvs rend, bytes body -> olayout body kvs rend -> doc_ok (MMap kvs) = true -> keys_refl (MMap kvs) = true ->
+    forall body kvs rend, bytes body -> olayout body kvs rend -> doc_ok (MMap kvs) = true ->
     forall kvs1 kvs2 p, kvs = kvs1 ++ kvs2 -> olayout body kvs1 p -> olayout p kvs2 rend ->
     forall toks c, spec_vacts kvs kvs2 acts = (toks, None, c) ->
     run_vacts acts (mkO body (N.of_nat (length kvs)) (N.of_nat (length kvs1)) None) p =
@@ -703,13 +700,13 @@ Section Refine.
     end.
   Proof. reflexivity. Qed.
 
-  Lemma run_vact_obj body q st p : run_vact (VObj body) q st p = do_obj o (find_value_by_key_ref narrow widen o) (run_reqs body) q st p.
+  Lemma run_vact_obj body q st p : run_vact (VObj body) q st p = do_obj o (find_value_by_key narrow widen o) (run_reqs body) q st p.
   Proof. reflexivity. Qed.
-  Lemma run_vact_arr body q st p : run_vact (VArr body) q st p = do_arr o (find_value_by_key_ref narrow widen o) (run_areqs body) q st p.
+  Lemma run_vact_arr body q st p : run_vact (VArr body) q st p = do_arr o (find_value_by_key narrow widen o) (run_areqs body) q st p.
   Proof. reflexivity. Qed.
   Lemma run_vact_binarr n body q st p : run_vact (VBinArr n body) q st p =
-    match do_bin_gen o (find_value_by_key_ref narrow widen o) n q st p with
-    | (r, true) => seq_res r (do_arr o (find_value_by_key_ref narrow widen o) (run_areqs body) q)
+    match do_bin_gen o (find_value_by_key narrow widen o) n q st p with
+    | (r, true) => seq_res r (do_arr o (find_value_by_key narrow widen o) (run_areqs body) q)
     | (r, false) => r
     end.
   Proof. reflexivity. Qed.
@@ -741,98 +738,94 @@ Section Refine.
     end.
   Proof. reflexivity. Qed.
 
-  (* a current key that equals itself is found at once by the by-reference search *)
-  Lemma current_found body kvs rend st p vm pn sk :
-    bytes body -> olayout body kvs rend -> doc_ok (MMap kvs) = true -> keys_refl (MMap kvs) = true ->
-    at_member body kvs rend st p vm pn -> o_key st = Some sk ->
-    find_value_by_key_ref narrow widen o (qkey_of_skey sk) st p = Go (true, st) p /\
-    lookup (key_of_q (qkey_of_skey sk)) kvs = Some vm /\ In vm (map snd kvs).
-  Proof.
-    intros Hb HL Hok Hrf HM Hkey. destruct (doc_ok_map _ Hok) as [Hsup [Hdist _]].
-    assert (Eq : skey_eq sk (qkey_of_skey sk) = true).
-    { pose proof HM as HM'. destruct HM' as [kvs1 km vm0 kvs2 pk p1 pn0 sk0 E H1 Hk Hv0 H2 Hkd Hoks].
-      cbn [o_key] in Hkey. injection Hkey as <-.
-      rewrite (skey_eq_spec sk0 _ Hoks), key_of_qkey_of_skey.
-      apply (proj2 (keys_refl_map _ Hrf) km vm0); [rewrite E; apply in_or_app; right; left; reflexivity | exact Hkd]. }
-    destruct (find_ref_current narrow widen o body kvs rend Hdist st p vm pn sk HM Hkey Eq) as [Ef El].
-    destruct (at_member_facts body kvs rend Hb _ _ _ _ HM) as [_ [_ [_ [Hin _]]]].
-    repeat split; assumption.
-  Qed.
+  (* what the current key is good for: found at once, or (a key that does not equal itself: NaN) absent after a full
+     cycle that comes back behind the member *)
+  Ltac current HM Hkey Hb HL Hok :=
+    let Hsup := fresh "Hsup" in let Hdist := fresh "Hdist" in let Hvals := fresh "Hvals" in
+    destruct (doc_ok_map _ Hok) as [Hsup [Hdist Hvals]];
+    destruct (find_current narrow widen o _ _ _ Hb HL Hsup Hdist _ _ _ _ _ HM Hkey) as [[Ef El] | [Ef [Ef2 El]]].
 
   Lemma V_skip : P_vact VSkip.
   Proof.
-    intros body kvs rend Hb HL Hok Hrf st p vm pn sk HM Hkey toks c Hs. cbn [MpScopeSpec.spec_vact] in Hs. injection Hs as <- _.
+    intros body kvs rend Hb HL Hok st p vm pn sk HM Hkey toks c Hs. cbn [MpScopeSpec.spec_vact] in Hs. injection Hs as <- _.
     exists st, p. split; [reflexivity | left; split; reflexivity].
   Qed.
 
   Lemma V_throw e : P_vact (VThrow e).
-  Proof. intros body kvs rend Hb HL Hok Hrf st p vm pn sk HM Hkey toks c Hs. discriminate Hs. Qed.
+  Proof. intros body kvs rend Hb HL Hok st p vm pn sk HM Hkey toks c Hs. discriminate Hs. Qed.
 
   Lemma V_get t : P_vact (VGet t).
   Proof.
-    intros body kvs rend Hb HL Hok Hrf st p vm pn sk HM Hkey toks c Hs. cbn [MpScopeSpec.spec_vact] in Hs.
-    change (run_vact (VGet t) (qkey_of_skey sk) st p) with (do_get narrow widen o (find_value_by_key_ref narrow widen o) (qkey_of_skey sk) t st p).
-    destruct (current_found body kvs rend st p vm pn sk Hb HL Hok Hrf HM Hkey) as [Ef [El Hin]]. rewrite El in Hs.
-    rewrite (get_found body kvs rend Hb (find_value_by_key_ref narrow widen o) _ t st p st p vm pn toks c Ef HM Hs).
-    eexists _, _. split; [reflexivity | right; split; reflexivity].
+    intros body kvs rend Hb HL Hok st p vm pn sk HM Hkey toks c Hs. cbn [MpScopeSpec.spec_vact] in Hs.
+    change (run_vact (VGet t) (qkey_of_skey sk) st p) with (do_get narrow widen o (find_value_by_key narrow widen o) (qkey_of_skey sk) t st p).
+    current HM Hkey Hb HL Hok; rewrite El in Hs.
+    - rewrite (get_found body kvs rend Hb (find_value_by_key narrow widen o) _ t st p st p vm pn toks c Ef HM Hs).
+      eexists _, _. split; [reflexivity | right; split; reflexivity].
+    - rewrite (get_absent (find_value_by_key narrow widen o) _ t st p _ _ Ef). injection Hs as <- _.
+      eexists _, _. split; [reflexivity | right; split; reflexivity].
   Qed.
 
   Lemma V_obj body_reqs : P_reqs body_reqs -> P_vact (VObj body_reqs).
   Proof.
-    intros IH body kvs rend Hb HL Hok Hrf st p vm pn sk HM Hkey toks c Hs. rewrite spec_vact_obj in Hs. rewrite run_vact_obj.
-    destruct (doc_ok_map _ Hok) as [_ [_ Hvals]].
-    destruct (current_found body kvs rend st p vm pn sk Hb HL Hok Hrf HM Hkey) as [Ef [El Hin]]. rewrite El in Hs.
-    rewrite (obj_found body kvs rend Hb (find_value_by_key_ref narrow widen o) _ body_reqs st p st p vm pn toks c IH
-               (or_intror (proj1 (keys_refl_map _ Hrf) vm Hin)) (Hvals _ Hin) Ef HM); [|destruct vm; exact Hs].
-    eexists _, _. split; [reflexivity | right; split; reflexivity].
+    intros IH body kvs rend Hb HL Hok st p vm pn sk HM Hkey toks c Hs. rewrite spec_vact_obj in Hs. rewrite run_vact_obj.
+    current HM Hkey Hb HL Hok; rewrite El in Hs.
+    - destruct (at_member_facts body kvs rend Hb _ _ _ _ HM) as [_ [_ [_ [Hin _]]]].
+      rewrite (obj_found body kvs rend Hb (find_value_by_key narrow widen o) _ body_reqs st p st p vm pn toks c IH (Hvals _ Hin) Ef HM); [|destruct vm; exact Hs].
+      eexists _, _. split; [reflexivity | right; split; reflexivity].
+    - rewrite (obj_absent (find_value_by_key narrow widen o) _ _ st p _ _ Ef). injection Hs as <- _.
+      eexists _, _. split; [reflexivity | right; split; reflexivity].
   Qed.
 
   Lemma V_arr body_reqs : P_areqs body_reqs -> P_vact (VArr body_reqs).
   Proof.
-    intros IH body kvs rend Hb HL Hok Hrf st p vm pn sk HM Hkey toks c Hs. rewrite spec_vact_arr in Hs. rewrite run_vact_arr.
-    destruct (doc_ok_map _ Hok) as [_ [_ Hvals]].
-    destruct (current_found body kvs rend st p vm pn sk Hb HL Hok Hrf HM Hkey) as [Ef [El Hin]]. rewrite El in Hs.
-    rewrite (arr_found body kvs rend Hb (find_value_by_key_ref narrow widen o) _ body_reqs st p st p vm pn toks c IH
-               (or_intror (proj1 (keys_refl_map _ Hrf) vm Hin)) (Hvals _ Hin) Ef HM); [|destruct vm; exact Hs].
-    eexists _, _. split; [reflexivity | right; split; reflexivity].
+    intros IH body kvs rend Hb HL Hok st p vm pn sk HM Hkey toks c Hs. rewrite spec_vact_arr in Hs. rewrite run_vact_arr.
+    current HM Hkey Hb HL Hok; rewrite El in Hs.
+    - destruct (at_member_facts body kvs rend Hb _ _ _ _ HM) as [_ [_ [_ [Hin _]]]].
+      rewrite (arr_found body kvs rend Hb (find_value_by_key narrow widen o) _ body_reqs st p st p vm pn toks c IH (Hvals _ Hin) Ef HM); [|destruct vm; exact Hs].
+      eexists _, _. split; [reflexivity | right; split; reflexivity].
+    - rewrite (arr_absent (find_value_by_key narrow widen o) _ _ st p _ _ Ef). injection Hs as <- _.
+      eexists _, _. split; [reflexivity | right; split; reflexivity].
   Qed.
 
   Lemma V_bin n : P_vact (VBin n).
   Proof.
-    intros body kvs rend Hb HL Hok Hrf st p vm pn sk HM Hkey toks c Hs. cbn [MpScopeSpec.spec_vact] in Hs.
-    change (run_vact (VBin n) (qkey_of_skey sk) st p) with (fst (do_bin_gen o (find_value_by_key_ref narrow widen o) n (qkey_of_skey sk) st p)).
-    destruct (current_found body kvs rend st p vm pn sk Hb HL Hok Hrf HM Hkey) as [Ef [El Hin]]. rewrite El in Hs.
-    rewrite (bin_found body kvs rend Hb (find_value_by_key_ref narrow widen o) _ n st p st p vm pn toks c Ef HM); [|destruct vm; exact Hs].
-    destruct (is_binv vm); cbn [fst]; eexists _, _; (split; [reflexivity|]); [right | left]; split; reflexivity.
+    intros body kvs rend Hb HL Hok st p vm pn sk HM Hkey toks c Hs. cbn [MpScopeSpec.spec_vact] in Hs.
+    change (run_vact (VBin n) (qkey_of_skey sk) st p) with (fst (do_bin_gen o (find_value_by_key narrow widen o) n (qkey_of_skey sk) st p)).
+    current HM Hkey Hb HL Hok; rewrite El in Hs.
+    - rewrite (bin_found body kvs rend Hb (find_value_by_key narrow widen o) _ n st p st p vm pn toks c Ef HM); [|destruct vm; exact Hs].
+      destruct (is_binv vm); cbn [fst]; eexists _, _; (split; [reflexivity|]); [right | left]; split; reflexivity.
+    - rewrite (bin_absent (find_value_by_key narrow widen o) _ n st p _ _ Ef). injection Hs as <- _. cbn [fst].
+      eexists _, _. split; [reflexivity | right; split; reflexivity].
   Qed.
 
   Lemma V_binarr n body_reqs : P_areqs body_reqs -> P_vact (VBinArr n body_reqs).
   Proof.
-    intros IH body kvs rend Hb HL Hok Hrf st p vm pn sk HM Hkey toks c Hs. rewrite spec_vact_binarr in Hs. rewrite run_vact_binarr.
-    destruct (doc_ok_map _ Hok) as [_ [_ Hvals]].
-    destruct (current_found body kvs rend st p vm pn sk Hb HL Hok Hrf HM Hkey) as [Ef [El Hin]]. rewrite El in Hs.
-    destruct (is_binv vm) eqn:Hbv.
-    - destruct vm; try discriminate Hbv.
-      rewrite (bin_found body kvs rend Hb (find_value_by_key_ref narrow widen o) _ n st p st p (MBin s) pn toks c Ef HM Hs). cbn [is_binv].
-      eexists _, _. split; [reflexivity | right; split; reflexivity].
-    - assert (Hs' : exists t2 c2, (match vm with
-                                    | MArr vs => match spec_areqs vs body_reqs with (r', lft) => child r' (match lft with [] => true | _ => false end) end
-                                    | _ => not_container o vm
-                                    end) = (t2, None, c2) /\ toks = KNone :: t2).
-      { destruct vm; try discriminate Hbv;
-          match type of Hs with (let (p0, c2) := ?X in _) = _ => destruct X as [[t2 e2] c2] end;
-          injection Hs as <- -> _; eexists _, _; (split; reflexivity). }
-      destruct Hs' as [t2 [c2 [Hs2 ->]]].
-      rewrite (bin_found body kvs rend Hb (find_value_by_key_ref narrow widen o) _ n st p st p vm pn [KNone] true Ef HM) by (destruct vm; try discriminate Hbv; reflexivity).
-      rewrite Hbv. unfold seq_res.
-      rewrite (arr_found body kvs rend Hb (find_value_by_key_ref narrow widen o) _ body_reqs st p st p vm pn t2 c2 IH
-                 (or_intror (proj1 (keys_refl_map _ Hrf) vm Hin)) (Hvals _ Hin) Ef HM Hs2).
-      eexists _, _. split; [reflexivity | right; split; reflexivity].
+    intros IH body kvs rend Hb HL Hok st p vm pn sk HM Hkey toks c Hs. rewrite spec_vact_binarr in Hs. rewrite run_vact_binarr.
+    current HM Hkey Hb HL Hok; rewrite El in Hs.
+    - destruct (at_member_facts body kvs rend Hb _ _ _ _ HM) as [_ [_ [_ [Hin _]]]].
+      destruct (is_binv vm) eqn:Hbv.
+      + destruct vm; try discriminate Hbv.
+        rewrite (bin_found body kvs rend Hb (find_value_by_key narrow widen o) _ n st p st p (MBin s) pn toks c Ef HM Hs). cbn [is_binv].
+        eexists _, _. split; [reflexivity | right; split; reflexivity].
+      + assert (Hs' : exists t2 c2, (match vm with
+                                      | MArr vs => match spec_areqs vs body_reqs with (r', lft) => child r' (match lft with [] => true | _ => false end) end
+                                      | _ => not_container o vm
+                                      end) = (t2, None, c2) /\ toks = KNone :: t2).
+        { destruct vm; try discriminate Hbv;
+            match type of Hs with (let (p0, c2) := ?X in _) = _ => destruct X as [[t2 e2] c2] end;
+            injection Hs as <- -> _; eexists _, _; (split; reflexivity). }
+        destruct Hs' as [t2 [c2 [Hs2 ->]]].
+        rewrite (bin_found body kvs rend Hb (find_value_by_key narrow widen o) _ n st p st p vm pn [KNone] true Ef HM) by (destruct vm; try discriminate Hbv; reflexivity).
+        rewrite Hbv. unfold seq_res.
+        rewrite (arr_found body kvs rend Hb (find_value_by_key narrow widen o) _ body_reqs st p st p vm pn t2 c2 IH (Hvals _ Hin) Ef HM Hs2).
+        eexists _, _. split; [reflexivity | right; split; reflexivity].
+    - rewrite (bin_absent (find_value_by_key narrow widen o) _ n st p _ _ Ef). unfold seq_res. rewrite (arr_absent (find_value_by_key narrow widen o) _ _ _ _ _ _ Ef2).
+      injection Hs as <- _. eexists _, _. split; [reflexivity | right; split; reflexivity].
   Qed.
 
   Lemma VS_nil : P_vacts VANil.
   Proof.
-    intros body kvs rend Hb HL Hok Hrf kvs1 kvs2 p E H1 H2 toks c Hs. cbn [MpScopeSpec.spec_vacts] in Hs. injection Hs as <- _.
+    intros body kvs rend Hb HL Hok kvs1 kvs2 p E H1 H2 toks c Hs. cbn [MpScopeSpec.spec_vacts] in Hs. injection Hs as <- _.
     destruct (doc_ok_map _ Hok) as [Hsup [Hdist Hvals]].
     cbn [MpScopeModel.run_vacts o_start].
     pose proof (olayout_length _ _ _ HL) as Hlen.
@@ -843,7 +836,7 @@ Section Refine.
 
   Lemma VS_cons a acts : P_vact a -> P_vacts acts -> P_vacts (VACons a acts).
   Proof.
-    intros IHa IH body kvs rend Hb HL Hok Hrf kvs1 kvs2 p E H1 H2 toks c Hs.
+    intros IHa IH body kvs rend Hb HL Hok kvs1 kvs2 p E H1 H2 toks c Hs.
     destruct (doc_ok_map _ Hok) as [Hsup [Hdist Hvals]].
     rewrite run_vacts_cons. cbn [o_index o_size].
     destruct kvs2 as [|[k v] kvs2].
@@ -865,26 +858,25 @@ Section Refine.
                      (set_key (mkO body (N.of_nat (length (kvs1 ++ (k, v) :: kvs2))) (N.of_nat (length kvs1)) None) (Some sk)) pv v pn).
       { unfold set_key. cbn [o_start o_size o_index]. eapply (AM body _ rend kvs1 k v kvs2 p pv pn sk); try eassumption; try reflexivity.
         rewrite Hsk. exact Ekk. }
-      destruct (IHa body _ rend Hb HL Hok Hrf _ _ _ _ sk HM eq_refl t1 c1 E1) as [st' [p' [Hrun Hpos]]]. rewrite Hrun.
+      destruct (IHa body _ rend Hb HL Hok _ _ _ _ sk HM eq_refl t1 c1 E1) as [st' [p' [Hrun Hpos]]]. rewrite Hrun.
       assert (Hreset : reset_key st' p' = Go (mkO body (N.of_nat (length (kvs1 ++ (k, v) :: kvs2))) (N.of_nat (length (kvs1 ++ [(k, v)]))) None) pn).
       { destruct Hpos as [[-> ->] | [-> ->]]; unfold reset_key, set_key, on_finish_child; cbn [o_key o_start o_size o_index].
         - rewrite (skip_at_exact _ _ _ Hv). do 2 f_equal. rewrite app_length. cbn [length]. lia.
         - do 2 f_equal. rewrite app_length. cbn [length]. lia. }
       rewrite Hreset.
       assert (E' : kvs1 ++ (k, v) :: kvs2 = (kvs1 ++ [(k, v)]) ++ kvs2) by (rewrite <- app_assoc; reflexivity).
-      pose proof (IH body _ rend Hb HL Hok Hrf (kvs1 ++ [(k, v)]) kvs2 pn E' (olayout_snoc _ _ _ _ _ _ _ H1 Hk Hv) Hrest t2 c2 E2) as Hrest'.
+      pose proof (IH body _ rend Hb HL Hok (kvs1 ++ [(k, v)]) kvs2 pn E' (olayout_snoc _ _ _ _ _ _ _ H1 Hk Hv) Hrest t2 c2 E2) as Hrest'.
       rewrite Hrest'. reflexivity.
   Qed.
 
   Lemma H_each acts : P_vacts acts -> P_req (REach acts).
   Proof.
-    intros IH body kvs rend Hb HL Hok HG st p Hc toks c Hs.
+    intros IH body kvs rend Hb HL Hok st p Hc toks c Hs.
     change (spec_req kvs (REach acts)) with (spec_vacts kvs kvs acts) in Hs.
     destruct (reset_key_go body kvs rend st p Hc) as [st1 [p1 [Hr [Hst [Hsz Hk]]]]].
     rewrite run_req_each, Hr. destruct st1 as [s0 z0 i0 k0]. cbn [o_start o_size o_key] in *. subst s0 z0 k0.
     unfold set_index. cbn [o_start o_size o_key].
-    assert (Hrf : keys_refl (MMap kvs) = true) by (destruct HG as [HG | HG]; [discriminate HG | exact HG]).
-    pose proof (IH body kvs rend Hb HL Hok Hrf [] kvs body eq_refl (OL_nil body) HL toks c Hs) as R. cbn [length N.of_nat] in R.
+    pose proof (IH body kvs rend Hb HL Hok [] kvs body eq_refl (OL_nil body) HL toks c Hs) as R. cbn [length N.of_nat] in R.
     rewrite R. eexists _, _. split; [reflexivity|].
     exact (C_at body kvs rend kvs [] rend (eq_sym (app_nil_r kvs)) HL (OL_nil rend)).
   Qed.
@@ -908,6 +900,8 @@ Section Refine.
     - exact A_arr.
     - exact A_bin.
     - exact A_end.
+    - exact A_try.
+    - exact A_throw.
     - exact A_nil.
     - intros a Ha l Hl. exact (A_cons a l Ha Hl).
     - exact V_skip.
@@ -932,36 +926,33 @@ Section Roots.
      way fails to skip its rest (the flag stays clear), so Finalize() has nothing to report *)
   Lemma obj_root_refines data kvs rest h toks c :
     bytes data -> decode data = Some (MMap kvs, rest) -> doc_ok (MMap kvs) = true ->
-    guard (each_free_reqs h) (MMap kvs) ->
     spec_reqs narrow widen o kvs h = (toks, None, c) ->
     run_obj_root narrow widen o data h = Done (KOpen :: toks ++ [KClose]) rest false.
   Proof.
-    intros Hb Hd Hok HG Hs.
+    intros Hb Hd Hok Hs.
     destruct (programs_refine narrow widen o) as [_ [Hreqs _]].
-    destruct (child_obj_run narrow widen o h data kvs rest toks c (Hreqs h) Hb Hd Hok HG Hs) as [bodyc [cst [cp [Hr [Hrun Hcl]]]]].
+    destruct (child_obj_run narrow widen o h data kvs rest toks c (Hreqs h) Hb Hd Hok Hs) as [bodyc [cst [cp [Hr [Hrun Hcl]]]]].
     unfold run_obj_root. rewrite Hr, Hrun. unfold with_child, after_child_obj, after_child. rewrite Hcl. reflexivity.
   Qed.
 
   (* the same for a root array, read to the end or not *)
   Lemma arr_root_refines data vs rest h toks c vs' :
     bytes data -> decode data = Some (MArr vs, rest) -> doc_ok (MArr vs) = true ->
-    guard (each_free_areqs h) (MArr vs) ->
     spec_areqs narrow widen o vs h = ((toks, None, c), vs') ->
     run_arr_root narrow widen o data h = Done (KOpen :: toks ++ [KClose]) rest false.
   Proof.
-    intros Hb Hd Hok HG Hs.
+    intros Hb Hd Hok Hs.
     destruct (programs_refine narrow widen o) as [_ [_ [_ [Hareqs _]]]].
-    destruct (child_arr_run narrow widen o h data vs rest toks c vs' (Hareqs h) Hb Hd Hok HG Hs) as [bodyc [ast [cp [Hr [Hrun Hcl]]]]].
+    destruct (child_arr_run narrow widen o h data vs rest toks c vs' (Hareqs h) Hb Hd Hok Hs) as [bodyc [ast [cp [Hr [Hrun Hcl]]]]].
     unfold run_arr_root. rewrite Hr, Hrun. unfold with_child, after_child_arr, after_child. rewrite Hcl. reflexivity.
   Qed.
 
   (* LoadObject = the program, then Finalize() *)
   Lemma load_obj_refines data kvs rest h toks c :
     bytes data -> decode data = Some (MMap kvs, rest) -> doc_ok (MMap kvs) = true ->
-    guard (each_free_reqs h) (MMap kvs) ->
     spec_reqs narrow widen o kvs h = (toks, None, c) ->
     load_obj narrow widen o data h = LOk (KOpen :: toks ++ [KClose]) rest.
-  Proof. intros Hb Hd Hok HG Hs. unfold load_obj. rewrite (obj_root_refines data kvs rest h toks c Hb Hd Hok HG Hs). reflexivity. Qed.
+  Proof. intros Hb Hd Hok Hs. unfold load_obj. rewrite (obj_root_refines data kvs rest h toks c Hb Hd Hok Hs). reflexivity. Qed.
 
   (* a scope that could not skip its rest on the way: whatever the program observed, the load fails *)
   Lemma close_failure_reported_obj data h toks rest :
@@ -984,7 +975,6 @@ Section Roots.
      and the reader stands at the start of element mIndex; the destructor then passes the rest *)
   Lemma arr_scope_counts data vs rest l toks c vs' :
     bytes data -> decode data = Some (MArr vs, rest) -> doc_ok (MArr vs) = true ->
-    guard (each_free_areqs l) (MArr vs) ->
     spec_areqs narrow widen o vs l = ((toks, None, c), vs') ->
     exists body idx p,
       read_array_size o data = ROk (N.of_nat (length vs)) body /\
@@ -992,12 +982,12 @@ Section Roots.
       idx + N.of_nat (length vs') = N.of_nat (length vs) /\ alayout p vs' rest /\
       close_arr (mkA (N.of_nat (length vs)) idx) p = CDone rest false.
   Proof.
-    intros Hb Hd Hok HG Hs.
+    intros Hb Hd Hok Hs.
     destruct (programs_refine narrow widen o) as [_ [_ [_ [Hareqs _]]]].
     destruct (read_array_size_on o data _ rest Hb Hd) as [body [Hr [HL Hsuf]]].
     pose proof (suffix_bytes _ _ Hsuf Hb) as Hbb.
-    destruct (Hareqs l vs rest body Hbb HL (doc_ok_arr _ Hok) (aguard_arr _ _ HG) (N.of_nat (length vs)) 0 (N.add_0_l _) toks c vs' Hs)
-      as [idx [p [Hrun [_ [HL' [_ [Hi _]]]]]]].
+    destruct (Hareqs l vs rest body Hbb HL (doc_ok_arr _ Hok) (N.of_nat (length vs)) 0 (N.add_0_l _) toks c vs' Hs)
+      as [idx [p [Hrun [_ [HL' [_ Hi]]]]]].
     exists body, idx, p. repeat split; try assumption. eapply close_arr_spec; eassumption.
   Qed.
 
@@ -1038,7 +1028,7 @@ Section Roots.
   Qed.
 
   Lemma requests_keep_cursor r body kvs rend :
-    bytes body -> olayout body kvs rend -> doc_ok (MMap kvs) = true -> guard (each_free_req r) (MMap kvs) ->
+    bytes body -> olayout body kvs rend -> doc_ok (MMap kvs) = true ->
     forall st p, cursor body kvs rend st p ->
     forall toks c, spec_req narrow widen o kvs r = (toks, None, c) ->
     exists st' p', run_req narrow widen o r st p = (toks, Go st' p', false) /\ cursor body kvs rend st' p'.
@@ -1118,7 +1108,7 @@ Lemma f14_bytes : bytes f14_doc.
 Proof. unfold f14_doc. repeat constructor. Qed.
 Lemma f14_repaired : run_obj_root no_narrow id_widen skip_all f14_doc f14_prog =
   Done (KOpen :: [KOpen; KVal (VInt 1); KClose; KVal (VInt 5)] ++ [KClose]) [0x07] false.
-Proof. exact (obj_root_refines no_narrow id_widen skip_all f14_doc _ _ f14_prog _ _ f14_bytes f14_decodes eq_refl (or_introl eq_refl) f14_spec). Qed.
+Proof. exact (obj_root_refines no_narrow id_widen skip_all f14_doc _ _ f14_prog _ _ f14_bytes f14_decodes eq_refl f14_spec). Qed.
 
 (* ---------- element reads under the Skip policies ---------- *)
 Fixpoint gets (ts : list target) : areqs :=
@@ -1157,9 +1147,6 @@ Proof.
     rewrite (IH vs) by (cbn [length] in Hl; try lia; exact Hb2). reflexivity.
 Qed.
 
-Lemma gets_each_free ts : each_free_areqs (gets ts) = true.
-Proof. induction ts as [|t ts IH]; [reflexivity | cbn [gets each_free_areqs each_free_areq andb]; exact IH]. Qed.
-
 Lemma arr_scope_counts_skip narrow widen o data vs rest ts :
   o_mismatch o = PSkip -> o_overflow o = PSkip ->
   bytes data -> decode data = Some (MArr vs, rest) -> doc_ok (MArr vs) = true ->
@@ -1175,7 +1162,7 @@ Lemma arr_scope_counts_skip narrow widen o data vs rest ts :
 Proof.
   intros Hm Ho Hb Hd Hok Hl Hnb.
   pose proof (gets_spec_skip narrow widen o Hm Ho ts vs Hl Hnb) as Hs.
-  destruct (arr_scope_counts narrow widen o data vs rest (gets ts) _ _ _ Hb Hd Hok (or_introl (gets_each_free ts)) Hs) as [body [idx [p [Hr [Hrun [Hi [HL Hcl]]]]]]].
+  destruct (arr_scope_counts narrow widen o data vs rest (gets ts) _ _ _ Hb Hd Hok Hs) as [body [idx [p [Hr [Hrun [Hi [HL Hcl]]]]]]].
   rewrite skipn_length in Hi. assert (idx = N.of_nat (length ts)) by lia. subst idx.
   exists body, p. repeat split; assumption.
 Qed.
@@ -1210,7 +1197,7 @@ Proof. vm_compute. reflexivity. Qed.
 Lemma ex_run : run_obj_root no_narrow id_widen skip_all ex_doc ex_prog =
   Done (KOpen :: [KOpen; KByte 1; KClose; KOpen; KVal (VInt 1); KIsEnd false; KClose; KFalse;
     KOpen; KKeys [KStr [0x78]]; KClose; KVal (VInt 5); KFalse] ++ [KClose]) [0x2A] false.
-Proof. exact (obj_root_refines no_narrow id_widen skip_all ex_doc ex_kvs [0x2A] ex_prog _ _ ex_bytes ex_decodes ex_doc_ok (or_introl eq_refl) ex_spec). Qed.
+Proof. exact (obj_root_refines no_narrow id_widen skip_all ex_doc ex_kvs [0x2A] ex_prog _ _ ex_bytes ex_decodes ex_doc_ok ex_spec). Qed.
 
 (* [ "x", 2, 3 ] read into two int32 targets under Skip: the first is skipped, the second loads from its own
    bytes, the third element is passed by the destructor *)
@@ -1228,18 +1215,9 @@ Proof. vm_compute. reflexivity. Qed.
 Lemma trunc_load : load_obj no_narrow id_widen skip_all trunc_doc trunc_prog = LErr [KOpen; KVal (VInt 5); KClose] (SE EParse).
 Proof. vm_compute. reflexivity. Qed.
 
-(* ---------- the VisitKeys callback receives a REFERENCE to the scope's own key slot ---------- *)
-(* the unrestricted refinement statement *)
-Definition mp_refines_statement : Prop :=
-  forall narrow widen o data kvs rest h toks c,
-    bytes data -> decode data = Some (MMap kvs, rest) -> doc_ok (MMap kvs) = true ->
-    spec_reqs narrow widen o kvs h = (toks, None, c) ->
-    run_obj_root narrow widen o data h = Done (KOpen :: toks ++ [KClose]) rest false.
-
-(* { NaN (float) : 1, 1.0f : 2 } visited with VisitKeys, an int32 loaded under each key: the keyed request under
-   the NaN key does not match at once (NaN != NaN), FindValueByKey searches on and ReadKey overwrites the very
-   slot the callback's key refers to; 1.0f == 1.0f, so the value of the OTHER member is loaded under the NaN key
-   and the enumeration ends there *)
+(* ---------- the former witness of M01 (VisitKeys handed its callback a reference to the key slot; d346324) ---------- *)
+(* { NaN (float) : 1, 1.0f : 2 } visited with VisitKeys, an int32 loaded under each key: nothing is found under the NaN key
+   (NaN != NaN: the search makes a full cycle and comes back behind that member), 2 under 1.0f *)
 Definition nan_doc : list N := [0x82; 0xCA; 0x7F; 0xC0; 0x00; 0x00; 0x01; 0xCA; 0x3F; 0x80; 0x00; 0x00; 0x02].
 Definition nan_kvs : list (mpv * mpv) := [(MF32 2143289344, MInt 1); (MF32 1065353216, MInt 2)].
 Definition nan_prog : reqs := RCons (REach (VACons (VGet (TgInt s32)) (VACons (VGet (TgInt s32)) VANil))) RNil.
@@ -1251,12 +1229,5 @@ Lemma nan_doc_ok : doc_ok (MMap nan_kvs) = true.
 Proof. vm_compute. reflexivity. Qed.
 Lemma nan_spec : spec_reqs no_narrow id_widen skip_all nan_kvs nan_prog = ([KFalse; KVal (VInt 2)], None, true).
 Proof. vm_compute. reflexivity. Qed.
-Lemma nan_run : run_obj_root no_narrow id_widen skip_all nan_doc nan_prog = Done [KOpen; KVal (VInt 2); KClose] [] false.
-Proof. vm_compute. reflexivity. Qed.
-
-Lemma mp_refines_refuted : ~ mp_refines_statement.
-Proof.
-  intros H.
-  pose proof (H no_narrow id_widen skip_all nan_doc nan_kvs [] nan_prog _ _ nan_bytes nan_decodes nan_doc_ok nan_spec) as R.
-  rewrite nan_run in R. discriminate R.
-Qed.
+Lemma nan_run : run_obj_root no_narrow id_widen skip_all nan_doc nan_prog = Done (KOpen :: [KFalse; KVal (VInt 2)] ++ [KClose]) [] false.
+Proof. exact (obj_root_refines no_narrow id_widen skip_all nan_doc nan_kvs [] nan_prog _ _ nan_bytes nan_decodes nan_doc_ok nan_spec). Qed.
